@@ -153,6 +153,16 @@ Section Analysis.
   Definition cc_mag_spec (tr : traj) (j t : nat) : F := cabs (cc_re_spec tr j t) (cc_im_spec tr j t).
   Definition periods (tr : traj) : list nat := seq 0 (t_width tr).
 
+  (* the first-principles series of constraint row j: magnitudes or complex values of the phase-aware sum *)
+  Definition series_spec_of (tr : traj) (return_magnitudes : bool) (j : nat) : series :=
+    if a_abs_applied A return_magnitudes
+    then Mag (map (cc_mag_spec tr j) (periods tr))
+    else Cplx (map (cc_re_spec tr j) (periods tr)) (map (cc_im_spec tr j) (periods tr)).
+
+  (* the recorded matrix of a ledger run (one list per period), station-major as Simulator.charging_rates *)
+  Definition station_major_of (by_period : list (list F)) (n : nat) : list (list F) :=
+    map (fun s => map (fun col => nth s col z0) by_period) (seq 0 n).
+
   (* ------------------------------------------------------------ energy metrics *)
   Definition total_energy_requested (tr : traj) : F := fold_left (oadd O) (map fst (t_evh tr)) z0.
   Definition total_energy_delivered (tr : traj) : F := fold_left (oadd O) (map snd (t_evh tr)) z0.
